@@ -16,13 +16,27 @@ type ColAuto struct {
 
 // Infer and initialize Column from ColumnType.
 func (c *ColAuto) Infer(t ColumnType) error {
-	if c.Data != nil && c.DataType == t {
-		// Already ok.
-		//
-		// NB: compatible type is not enough to keep the column, parameters
-		// (precision, time zone, enum values) can differ at any depth and
-		// not every wrapper (Nullable, LowCardinality) can pass them down.
-		return nil
+	if c.Data != nil && !c.Type().Conflicts(t) {
+		if c.DataType == t {
+			// Already ok.
+			return nil
+		}
+		// Same kind of column, but parameters (precision, time zone, enum
+		// values) can differ at any depth: the column should adopt them, not
+		// just report the new type. The column itself is kept, it can hold
+		// rows (e.g. when used as input).
+		v, ok := c.Data.(Inferable)
+		if !ok {
+			// No parameters to adopt.
+			c.DataType = t
+			return nil
+		}
+		if v.Infer(t) == nil {
+			c.DataType = t
+			return nil
+		}
+		// Can't pass parameters to existing column (e.g. Enum8 column and
+		// compatible Int8), creating new one.
 	}
 	if v := inferGenerated(t); v != nil {
 		c.Data = v
